@@ -2,7 +2,7 @@
 # seeds.sh SEED...: run every claimed quick check under each seed (no-alarm evidence on the unchanged tree)
 cd "$(dirname "$0")/.."
 for s in "$@"; do
-  for c in $(python3 -c "import json;print(' '.join(p['id'] for p in json.load(open('MANIFEST.json'))['properties']))"); do
+  for c in $(python3 -c "import json;print(' '.join(p['property_id'] for p in json.load(open('MANIFEST.json'))['checks']))"); do
     VERIF_SEED=$s timeout 3000 ./check $c 2>&1 | grep "VIOLATION\|KNOWN\|ok:\|FAIL" | sed "s/^/seed$s /"
   done
 done
